@@ -50,7 +50,7 @@ def gen_case(rng, tier):
         c["mods"][1][1], c["mods"][1][2] = c["mods"][0][1], c["mods"][0][2]
         c["mods"][1][3] = "clinical" if c["mods"][0][3] == "pathological" else "pathological"
     mods = [m[0] for m in c["mods"]]
-    c["t"] = list(c["dists"])[0]
+    c["t"] = rng.choice(list(c["dists"]))
     c["mode"] = "HMM"
     if cls == "uni":
         c["params"] = gen.gen_edge_params(rng, g)
@@ -70,6 +70,8 @@ def gen_case(rng, tier):
             c["sym"] = {"tumor_spread": rng.random() < 0.5, "lnl_spread": rng.random() < 0.5}
             if base == 2 and rng.random() < 0.45:
                 c["mode"] = "BN"
+                if rng.random() < 0.5:      # the network prior with shared tumour spread but side-specific LNL spread
+                    c["sym"] = {"tumor_spread": True, "lnl_spread": False}
             c["leaf_override"] = rng.choice([None, None, "contra", "ipsi"])
         else:
             kind = rng.choice(["evo", "central", "none"])
